@@ -7,6 +7,8 @@ Definition RT (crate : crate_fn) (s : bytes) : Prop :=
   forall u, parse crate s = Ok u ->
   exists s', to_bstring u = Ok s' /\ parse crate s' = Ok u.
 
+(* ---- local paths ---------------------------------------------------------------------------- *)
+
 Lemma local_RT crate s : find_scheme s = ILocal -> RT crate s.
 Proof.
   intros Hf u Hp. unfold parse in Hp. rewrite Hf in Hp.
@@ -14,4 +16,209 @@ Proof.
   apply Ok_inj in Hp. subst u. exists (b :: r). split.
   - reflexivity.
   - unfold parse. rewrite Hf. reflexivity.
+Qed.
+
+(* ---- searching ------------------------------------------------------------------------------- *)
+
+Lemma starts_with_spec p : forall s, starts_with p s = true -> s = p ++ skipn (length p) s.
+Proof.
+  induction p as [|x p IH]; intros s H; [reflexivity|].
+  destruct s as [|y s]; [discriminate|]. cbn in H.
+  apply Bool.andb_true_iff in H as [Hxy H]. apply beqb_eq in Hxy. subst y.
+  cbn. f_equal. apply IH, H.
+Qed.
+
+Lemma starts_with_app p r : starts_with p (p ++ r) = true.
+Proof.
+  induction p as [|x p IH]; [reflexivity|]. cbn.
+  rewrite IH. replace (beqb x x) with true; [reflexivity|]. symmetry. apply beqb_eq. reflexivity.
+Qed.
+
+Lemma find_sub_spec p : forall s n, find_sub p s = Some n ->
+  s = firstn n s ++ p ++ skipn (n + length p) s.
+Proof.
+  induction s as [|y s IH]; intros n H.
+  - cbn in H. destruct (starts_with p []) eqn:E; [|discriminate].
+    injection H as <-. cbn. apply starts_with_spec in E. exact E.
+  - cbn [find_sub] in H. destruct (starts_with p (y :: s)) eqn:E.
+    + injection H as <-. apply starts_with_spec in E. exact E.
+    + destruct (find_sub p s) as [m|] eqn:Em; [|discriminate].
+      injection H as <-. cbn. f_equal. apply IH. reflexivity.
+Qed.
+
+Lemma find_sub_length p : forall s n, find_sub p s = Some n -> length (firstn n s) = n.
+Proof.
+  induction s as [|y s IH]; intros n H.
+  - cbn in H. destruct (starts_with p []); [|discriminate]. injection H as <-. reflexivity.
+  - cbn [find_sub] in H. destruct (starts_with p (y :: s)).
+    + injection H as <-. reflexivity.
+    + destruct (find_sub p s) as [m|] eqn:Em; [|discriminate].
+      injection H as <-. cbn. f_equal. apply IH. reflexivity.
+Qed.
+
+Lemma beqb_sym a b : beqb a b = beqb b a.
+Proof.
+  destruct (beqb a b) eqn:E1, (beqb b a) eqn:E2; try reflexivity.
+  - apply beqb_eq in E1. subst. assert (beqb b b = true) by (apply beqb_eq; reflexivity). congruence.
+  - apply beqb_eq in E2. subst. assert (beqb a a = true) by (apply beqb_eq; reflexivity). congruence.
+Qed.
+
+(* the first occurrence of a needle starting with ':' behind a colon-free prefix *)
+Lemma find_sub_colon_prefix q a r :
+  has_byte COLON a = false ->
+  find_sub (COLON :: q) (a ++ COLON :: q ++ r) = Some (length a).
+Proof.
+  induction a as [|x a IH]; intros H.
+  - cbn [app length find_sub].
+    change (COLON :: q ++ r) with ((COLON :: q) ++ r).
+    destruct r; cbn [find_sub]; rewrite starts_with_app; reflexivity.
+  - cbn in H. apply Bool.orb_false_iff in H as [Hx Ha].
+    cbn [app length find_sub starts_with]. rewrite Bool.andb_false_intro1.
+    + rewrite IH by exact Ha. reflexivity.
+    + rewrite beqb_sym. exact Hx.
+Qed.
+
+Lemma find_byte_spec b : forall s n, find_byte b s = Some n ->
+  s = firstn n s ++ b :: skipn (n + 1) s /\ has_byte b (firstn n s) = false /\ length (firstn n s) = n.
+Proof.
+  induction s as [|y s IH]; intros n H; [discriminate|].
+  cbn [find_byte] in H. destruct (beqb y b) eqn:E.
+  - injection H as <-. apply beqb_eq in E. subst y. repeat split.
+  - destruct (find_byte b s) as [m|] eqn:Em; [|discriminate].
+    injection H as <-. destruct (IH m eq_refl) as (H1 & H2 & H3).
+    cbn. repeat split.
+    + f_equal. exact H1.
+    + rewrite E. exact H2.
+    + f_equal. exact H3.
+Qed.
+
+Lemma find_byte_none b : forall s, find_byte b s = None -> has_byte b s = false.
+Proof.
+  induction s as [|y s IH]; intros H; [reflexivity|].
+  cbn in *. destruct (beqb y b); [discriminate|].
+  destruct (find_byte b s); [discriminate|]. apply IH. reflexivity.
+Qed.
+
+Lemma find_byte_prefix b a r :
+  has_byte b a = false -> find_byte b (a ++ b :: r) = Some (length a).
+Proof.
+  induction a as [|x a IH]; intros H.
+  - cbn. replace (beqb b b) with true; [reflexivity|]. symmetry. apply beqb_eq. reflexivity.
+  - cbn in H. apply Bool.orb_false_iff in H as [Hx Ha].
+    cbn. rewrite Hx. rewrite IH by exact Ha. reflexivity.
+Qed.
+
+Lemma has_byte_app b x y : has_byte b (x ++ y) = has_byte b x || has_byte b y.
+Proof. unfold has_byte. apply existsb_app. Qed.
+
+(* ---- UTF-8 ---------------------------------------------------------------------------------- *)
+
+Definition is_ascii (b : byte) : bool := N.leb (b2N b) 127.
+
+Lemma utf8_valid_ascii_app a r : forallb is_ascii a = true -> utf8_valid (a ++ r) = utf8_valid r.
+Proof.
+  induction a as [|x a IH]; intros H; [reflexivity|].
+  cbn in H. apply Bool.andb_true_iff in H as [Hx Ha].
+  cbn [app utf8_valid]. unfold is_ascii in Hx. rewrite Hx. apply IH, Ha.
+Qed.
+
+(* ---- file:// URLs --------------------------------------------------------------------------- *)
+
+Lemma file_letter : forall x y,
+  implb (beqb (ascii_lower x) (ascii_lower y) && is_lower y)
+        (is_ascii x && negb (beqb x COLON)) = true.
+Proof. apply forall_bytes2. vm_compute. reflexivity. Qed.
+
+Lemma file_letter_use x y :
+  beqb (ascii_lower x) (ascii_lower y) = true -> is_lower y = true ->
+  is_ascii x = true /\ beqb x COLON = false.
+Proof.
+  intros H1 H2. pose proof (file_letter x y) as H. rewrite H1, H2 in H. cbn [andb implb] in H.
+  apply Bool.andb_true_iff in H as [Ha Hb]. apply Bool.negb_true_iff in Hb. split; assumption.
+Qed.
+
+Lemma file_prefix_facts f : eq_ignore_ascii_case f (bs "file") = true ->
+  forallb is_ascii f = true /\ has_byte COLON f = false.
+Proof.
+  intros H. change (bs "file") with [x66; x69; x6c; x65] in H.
+  destruct f as [|a [|b [|c [|d [|e f]]]]]; cbn [eq_ignore_ascii_case] in H; try discriminate;
+    try (repeat (apply Bool.andb_true_iff in H as [? H]); discriminate).
+  apply Bool.andb_true_iff in H as [Ha H]. apply Bool.andb_true_iff in H as [Hb H].
+  apply Bool.andb_true_iff in H as [Hc H]. apply Bool.andb_true_iff in H as [Hd _].
+  destruct (file_letter_use _ _ Ha eq_refl) as [A1 A2].
+  destruct (file_letter_use _ _ Hb eq_refl) as [B1 B2].
+  destruct (file_letter_use _ _ Hc eq_refl) as [C1 C2].
+  destruct (file_letter_use _ _ Hd eq_refl) as [D1 D2].
+  split.
+  - cbn [forallb]. rewrite A1, B1, C1, D1. reflexivity.
+  - unfold has_byte. cbn [existsb]. rewrite A2, B2, C2, D2. reflexivity.
+Qed.
+
+Lemma file_url_shape s pe u :
+  utf8_valid s = true ->
+  parse_file_url s pe = Ok u ->
+  let after := skipn (pe + 3) s in
+  to_bstring u = Ok (bs "file://" ++ after)
+  /\ exists fs, find_byte SLASH after = Some fs
+     /\ u = mkUrl File None None (match fs with O => None | _ => Some (firstn fs after) end)
+                  false None (skipn fs after).
+Proof.
+  intros Hu Hp after. unfold parse_file_url in Hp. rewrite Hu in Hp. cbn [negb] in Hp.
+  fold after in Hp.
+  destruct (find_byte SLASH after) as [fs|] eqn:Ef; [|discriminate].
+  destruct (find_byte_spec _ _ _ Ef) as (Hs & _ & _).
+  assert (Hne : skipn fs after = SLASH :: skipn (fs + 1) after).
+  { rewrite Hs at 1. rewrite skipn_app.
+    destruct (find_byte_spec _ _ _ Ef) as (_ & _ & Hl).
+    rewrite Hl. rewrite Nat.sub_diag. cbn [skipn].
+    rewrite skipn_all2; [reflexivity|]. rewrite Hl. lia. }
+  remember (skipn fs after) as path eqn:Epath.
+  destruct path as [|p0 ptl]; [discriminate|].
+  cbn in Hp. apply Ok_inj in Hp. subst u.
+  split.
+  - unfold to_bstring. cbn [u_alt u_scheme u_user u_host u_port u_password u_path andb scheme_str].
+    destruct fs as [|n].
+    + cbn [skipn] in Epath. rewrite <- Epath. reflexivity.
+    + assert (Hafter : after = firstn (S n) after ++ p0 :: ptl).
+      { rewrite Epath. symmetry. apply firstn_skipn. }
+      set (h := firstn (S n) after) in *.
+      rewrite Hafter. rewrite <- !app_assoc. reflexivity.
+  - exists fs. split; [reflexivity|]. rewrite <- Epath. reflexivity.
+Qed.
+
+Lemma file_RT crate s pe :
+  find_scheme s = IUrl pe -> eq_ignore_ascii_case (firstn pe s) (bs "file") = true -> RT crate s.
+Proof.
+  intros Hf Hfile u Hp. unfold parse in Hp. rewrite Hf, Hfile in Hp.
+  assert (Hsub : find_sub (bs "://") s = Some pe).
+  { unfold find_scheme in Hf. destruct (find_sub (bs "://") s) as [p|].
+    - injection Hf as ->. reflexivity.
+    - destruct (find_byte COLON s); [destruct (has_byte SLASH _)|]; discriminate. }
+  pose proof (find_sub_spec _ _ _ Hsub) as Hs. cbn [length bs] in Hs.
+  change (pe + length (bs "://")) with (pe + 3) in Hs.
+  destruct (file_prefix_facts _ Hfile) as (Hascii & Hnc).
+  assert (Hu : utf8_valid s = true).
+  { unfold parse_file_url in Hp. destruct (utf8_valid s); [reflexivity|discriminate]. }
+  set (after := skipn (pe + 3) s) in *.
+  assert (Hua : utf8_valid after = true).
+  { rewrite Hs in Hu. rewrite utf8_valid_ascii_app in Hu by exact Hascii.
+    rewrite (utf8_valid_ascii_app (bs "://")) in Hu by reflexivity. exact Hu. }
+  destruct (file_url_shape s pe u Hu Hp) as (Hser & fs & Hfs & Hu_eq).
+  fold after in Hser, Hfs, Hu_eq.
+  exists (bs "file://" ++ after). split; [exact Hser|].
+  assert (Hsub' : find_sub (bs "://") (bs "file://" ++ after) = Some 4%nat).
+  { change (bs "file://" ++ after) with (bs "file" ++ COLON :: bs "//" ++ after).
+    apply (find_sub_colon_prefix (bs "//") (bs "file") after). reflexivity. }
+  unfold parse, find_scheme. rewrite Hsub'.
+  change (firstn 4 (bs "file://" ++ after)) with (bs "file").
+  change (eq_ignore_ascii_case (bs "file") (bs "file")) with true. cbv iota.
+  unfold parse_file_url.
+  rewrite (utf8_valid_ascii_app (bs "file://")) by reflexivity. rewrite Hua. cbn [negb].
+  change (skipn (4 + 3) (bs "file://" ++ after)) with after.
+  rewrite Hfs. rewrite Hu_eq.
+  destruct (find_byte_spec _ _ _ Hfs) as (Hsa & _ & Hl).
+  assert (Hne : skipn fs after = SLASH :: skipn (fs + 1) after).
+  { rewrite Hsa at 1. rewrite skipn_app. rewrite Hl. rewrite Nat.sub_diag. cbn [skipn].
+    rewrite skipn_all2; [reflexivity|]. rewrite Hl. lia. }
+  rewrite Hne. reflexivity.
 Qed.
